@@ -20,6 +20,7 @@ static int nbad = 0, nok = 0;
 // registry context of the probes: 0 nothing initialised anywhere; 1 the double registry holds a selected solution (every long double
 // entry point must still be fatal); 2 the long double registry holds one (every double and every C entry point must still be fatal)
 static int g_ctx = 0;
+static std::string g_registered;  // when non-empty: the probe child first registers this catalogue solution under handle "reg" (both registries)
 static void probe(const std::string& name0, std::function<void()> f) {
   bool ld_side = name0.find("<long double>") != std::string::npos;
   if ((g_ctx == 1 && !ld_side) || (g_ctx == 2 && ld_side)) return;
@@ -27,6 +28,7 @@ static void probe(const std::string& name0, std::function<void()> f) {
   int pfd[2]; if (pipe(pfd)) exit(2); fflush(stdout);
   pid_t pid = fork();
   if (pid == 0) { close(pfd[0]);
+    if (!g_registered.empty()) { int dn = open("/dev/null", O_WRONLY); int saved = dup(1); dup2(dn, 1); masa_init<double>("reg", g_registered); masa_init<LD>("reg", g_registered); std::cout.flush(); fflush(stdout); dup2(saved, 1); close(saved); close(dn); }
     if (g_ctx) { int dn = open("/dev/null", O_WRONLY); int saved = dup(1); dup2(dn, 1); if (g_ctx == 1) masa_init<double>("other", "euler_1d"); else masa_init<LD>("other", "euler_1d"); std::cout.flush(); fflush(stdout); dup2(saved, 1); close(saved); close(dn); }
     dup2(pfd[1], 1); f(); std::cout.flush(); fflush(stdout); _exit(0); }
   close(pfd[1]); std::string out; char b[4096]; ssize_t n; while ((n = read(pfd[0], b, sizeof b)) > 0) out.append(b, n); close(pfd[0]); int st; waitpid(pid, &st, 0);
@@ -36,6 +38,16 @@ static void probe(const std::string& name0, std::function<void()> f) {
 static void all_probes();
 int main() {
   for (g_ctx = 0; g_ctx < 3; g_ctx++) all_probes();
+  // the error path may look at what is registered (to list it, to suggest a handle ...): select(unknown) and init(bogus name) must keep to the
+  // fatal-error protocol whatever catalogue solution the registry holds
+  g_ctx = 0;
+  { std::vector<std::string> cat; { int pfd[2]; if (pipe(pfd)) return 2; pid_t pid = fork(); if (pid == 0) { close(pfd[0]); dup2(pfd[1], 1); masa_printid<double>(); std::cout.flush(); _exit(0); } close(pfd[1]); std::string t; char b[4096]; ssize_t n; while ((n = read(pfd[0], b, sizeof b)) > 0) t.append(b, n); close(pfd[0]); int st; waitpid(pid, &st, 0);
+      size_t p0 = 0; bool in = false; while (p0 < t.size()) { size_t p1 = t.find('\n', p0); if (p1 == std::string::npos) p1 = t.size(); std::string l = t.substr(p0, p1 - p0); p0 = p1 + 1; if (l.find("*---") != std::string::npos) { if (in) break; in = true; continue; } if (in && !l.empty()) cat.push_back(l); } }
+    for (auto& sol : cat) { g_registered = sol;
+      probe("masa_select_mms(unknown)<double> [registry holds " + sol + "]", [] { masa_select_mms<double>("nobody"); });
+      probe("masa_select_mms(unknown)<long double> [registry holds " + sol + "]", [] { masa_select_mms<LD>("nobody"); });
+      probe("masa_init(bogus solution)<double> [registry holds " + sol + "]", [] { masa_init<double>("h", "no_such_solution"); }); }
+    g_registered.clear(); }
   fprintf(stderr, "empty-history probes: ok=%d bad=%d\n", nok, nbad);
   return 0;
 }
